@@ -64,3 +64,27 @@ package proxy
 //@   ensures lock_state: !patch.locked()
 //@   panics_only_if rejected: true
 //@   ensures_on_panic nothing_left_diverted: patch.panic_frame() && patch.table_inv() && !patch.locked()
+
+// proxy.Method: the same for the method methodName of target (resolved through reflect's method table)
+//@ func Method
+//@   props C01 C02 C03 C13
+//@   requires type: target != nil
+//@   requires table: patch.table_inv()
+//@   requires table_alive: forall k uintptr :: has(patch.patches, k) ==> alive(patch.patches[k])
+//@   requires unlocked: !patch.locked()
+//@   assigns mapof(patch.patches), anyfield(patch.patch, guard), textmem, perm, rw_wheld[addr(memory.memoryAccessLock)], rw_rheld[addr(memory.memoryAccessLock)], mutex_held[addr(patch.patchesLock)],
+//@     | placeholder_target[trampolineFunc], varval
+//@   ensures table_kept: patch.table_inv()
+//@   ensures error_no_guard: result1 != nil ==> result0 == nil
+//@   ensures unknown_method_rejected: !rt_has_method(target, methodName) ==> result1 != nil
+//@   ensures guard_ready: result1 == nil ==> result0 != nil && patch.guard_wf(result0) && !result0.applied && has(patch.patches, result0.origin) && patch.patches[result0.origin].guard == result0
+//@   ensures targets_the_method: result1 == nil ==> patch.is_target_of(result0.origin, rt_method_func(target, methodName))
+//@   ensures jump_through_callback_funcvalue: result1 == nil ==> x86_is_movabs_rdx_jmp(result0.jumpBytes, 1) && x86_movabs_rdx_imm(result0.jumpBytes, 1) == bytecode.funcvalue_word(value_of(proxyFunc))
+//@   ensures captured_text: result1 == nil ==> patch.window_is(result0.origin, result0.originBytes)
+//@   ensures placeholder_repointed: result1 == nil && trampolineFunc != nil && rt_kind(rt_of(typeof(trampolineFunc))) == reflect.Ptr ==> placeholder_target[trampolineFunc] == result0.fixOriginPtr
+//@   ensures not_diverted_yet: result1 == nil ==> forall a uintptr :: result0.origin <= a && a < result0.origin + 13 ==> textmem[a] == old(textmem[a]) || patch.was_patched(result0.origin)
+//@   ensures error_leaves_unmocked_targets_alone: result1 != nil ==> forall a uintptr :: textmem[a] == old(textmem[a]) || exists k uintptr :: patch.was_patched(k) && k <= a && a < k + 13
+//@   ensures pages_rx: patch.perm_exec_kept()
+//@   ensures lock_state: !patch.locked()
+//@   panics_only_if rejected: true
+//@   ensures_on_panic nothing_left_diverted: patch.panic_frame() && patch.table_inv() && !patch.locked()
